@@ -26,7 +26,8 @@ type failover interface {
 
 	// Timeout returns the time elapsed before expiring a failover. Each time a
 	// report is made, the failover's timeout is reset. Upon timing out, the
-	// timer for the leader failover is removed.
+	// timer for the leader failover is removed. It is also how long a single
+	// report counts towards the quorum unless the witness repeats it.
 	Timeout() time.Duration
 
 	// OnExpired is invoked when the timeout is reached indicating the failover
@@ -46,13 +47,19 @@ type failoverStatus struct {
 	mu        sync.Mutex
 	failover  failover
 	timer     *time.Timer
-	witnesses map[string]uint64 // Witness -> leader epoch it reported
+	witnesses map[string]witnessReport // Witness -> its most recent report
+}
+
+// witnessReport is the most recent report of the leader made by a witness.
+type witnessReport struct {
+	epoch uint64    // Leader epoch the witness reported
+	at    time.Time // Time the report was made
 }
 
 func newFailoverStatus(f failover) *failoverStatus {
 	return &failoverStatus{
 		failover:  f,
-		witnesses: make(map[string]uint64),
+		witnesses: make(map[string]witnessReport),
 	}
 }
 
@@ -64,15 +71,20 @@ func newFailoverStatus(f failover) *failoverStatus {
 func (f *failoverStatus) report(ctx context.Context, witness string, epoch uint64) *status.Status {
 	f.mu.Lock()
 
-	f.witnesses[witness] = epoch
+	now := time.Now()
+	f.witnesses[witness] = witnessReport{epoch: epoch, at: now}
 	// The quorum is computed from the parties that can currently report the
 	// leader. Forget witnesses which are no longer among them, e.g. a replica
 	// that was removed from the ISR after it reported the leader, and
 	// witnesses which reported a leader that has since been replaced, e.g.
 	// because their report arrived while the leader change was in flight.
+	// Also forget witnesses whose last report is older than the timeout. The
+	// expiration timer does not take care of these since it is reset by every
+	// report, including repeated reports from a single witness.
 	quorum := f.failover.Quorum()
-	for w, e := range f.witnesses {
-		if !f.failover.IsWitness(w, e) {
+	timeout := f.failover.Timeout()
+	for w, r := range f.witnesses {
+		if !f.failover.IsWitness(w, r.epoch) || now.Sub(r.at) > timeout {
 			delete(f.witnesses, w)
 		}
 	}
@@ -85,7 +97,7 @@ func (f *failoverStatus) report(ctx context.Context, witness string, epoch uint6
 		// The witnesses have served their purpose. Forget them so that they
 		// do not count towards a later failover, e.g. of the newly selected
 		// leader, for which a new quorum has to report within the timeout.
-		f.witnesses = make(map[string]uint64)
+		f.witnesses = make(map[string]witnessReport)
 		f.mu.Unlock()
 		return f.failover.Failover(ctx)
 	}
